@@ -89,6 +89,11 @@ func (sv *service) serve(ctx context.Context, shape string, ss grpc.ServerStream
 	}
 	tmd, _ := grpctunnel.TunnelMetadataFromIncomingContext(ctx)
 	f["tmd"] = wire.MD(tmd)
+	// whatever the accessors return is the caller's to change
+	mutate(tmd)
+	mutate(md)
+	iv, _ := ctx.Value(ctxValKey{}).(string)
+	f["ival"] = iv
 	if p, ok := peer.FromContext(ctx); ok && p.Addr != nil {
 		f["peer"] = p.Addr.String()
 	} else {
